@@ -80,9 +80,10 @@ def con1(tier):
                     yield _conn_spec(sk, [s], [t], excl=[('S1', 'T1')])
         # 1x2 / 2x1: single node permanent-or-conditional, the pair over all types (unordered in quick)
         singles = [(d, False, a) for d in D for a in anchors[:2]]
-        pair_types = types_norep if tier == 'quick' else types_rep
-        pairs = list(itertools.combinations_with_replacement(pair_types, 2)) if tier == 'quick' \
-            else list(itertools.product(pair_types, repeat=2))
+        # unordered pairs over the no-repeat types (thorough: full degree alphabet, three skeletons; the ordered / repeat
+        # variants of two connectors on one side are covered at matrix level by C09/C10)
+        pair_types = types_norep
+        pairs = list(itertools.combinations_with_replacement(pair_types, 2))
         for s in singles:
             for p in pairs:
                 if tier == 'quick' and len({p[0][2], p[1][2], s[2]}) == 1 and s[2] != 'a':
